@@ -397,7 +397,6 @@ func (a *AggregatePlan) Batch(ctx *ExecuteCtx) ([][]Column, error) {
 
 func (a *AggregatePlan) batch(ctx *ExecuteCtx) ([][]Column, error) {
 	var (
-		err   error
 		ret   = make([][]Column, 0, PlanBatchSize)
 		count = 0
 	)
@@ -407,25 +406,9 @@ func (a *AggregatePlan) batch(ctx *ExecuteCtx) ([][]Column, error) {
 	for count < PlanBatchSize {
 		aggrRow := a.aggrRows[a.pos]
 		a.pos++
-		// Field results cached for the previous group must not be reused
-		ctx.Clear()
-		row := make([]Column, len(a.aggrFields))
-		for i, col := range aggrRow {
-			if col.IsKey {
-				row[i] = col.Value
-			} else {
-				for i, f := range col.Funcs {
-					val, err := f.Complete()
-					if err != nil {
-						return nil, err
-					}
-					col.FuncExprs[i].Result = val
-				}
-				row[i], err = col.Expr.Execute(NewKVP(nil, nil), ctx)
-				if err != nil {
-					return nil, err
-				}
-			}
+		row, err := a.completeRow(aggrRow, ctx)
+		if err != nil {
+			return nil, err
 		}
 		ret = append(ret, row)
 		count++
@@ -471,26 +454,38 @@ func (a *AggregatePlan) Next(ctx *ExecuteCtx) ([]Column, error) {
 }
 
 func (a *AggregatePlan) next(ctx *ExecuteCtx) ([]Column, error) {
-	var err error
 	if a.pos >= len(a.aggrRows) {
 		return nil, nil
 	}
 	aggrRow := a.aggrRows[a.pos]
 	a.pos++
+	return a.completeRow(aggrRow, ctx)
+}
+
+// completeRow produces the result row of one group.
+func (a *AggregatePlan) completeRow(aggrRow []*AggrPlanField, ctx *ExecuteCtx) ([]Column, error) {
+	var err error
 	// Field results cached for the previous group must not be reused
 	ctx.Clear()
+	// Complete all the aggregate functions of the group first: a field may
+	// use the name of an aggregate field that is listed after it
+	for _, col := range aggrRow {
+		if col.IsKey {
+			continue
+		}
+		for i, f := range col.Funcs {
+			val, err := f.Complete()
+			if err != nil {
+				return nil, err
+			}
+			col.FuncExprs[i].Result = val
+		}
+	}
 	row := make([]Column, len(a.aggrFields))
 	for i, col := range aggrRow {
 		if col.IsKey {
 			row[i] = col.Value
 		} else {
-			for i, f := range col.Funcs {
-				val, err := f.Complete()
-				if err != nil {
-					return nil, err
-				}
-				col.FuncExprs[i].Result = val
-			}
 			row[i], err = col.Expr.Execute(NewKVP(nil, nil), ctx)
 			if err != nil {
 				return nil, err
